@@ -37,6 +37,18 @@ Proof.
 Qed.
 Print Assumptions C07_blocks_only_when_nothing_due.
 
+(* "every wake-up makes progress ... never hangs or spins", for chains of tasks: a task runs at most once per
+   iteration (603), so a chain of tasks that keep scheduling their successor -- also through freshly initialised task
+   objects -- goes through the quit test and the kernel poll of iv_main between any two of its steps and cannot keep
+   iv_main from returning after iv_quit *)
+Theorem C07_task_chains_yield :
+  forall sc, wf_scenario sc -> no_code [603] (mon_fails (run_scenario sc)).
+Proof.
+  intros sc WF c Hin _. pose proof (core_mon_all sc WF) as H. unfold mon_all in H.
+  destruct (mon_fails (run_scenario sc)); [contradiction|discriminate].
+Qed.
+Print Assumptions C07_task_chains_yield.
+
 (* non-vacuity: a well-formed run on every poll method that registers every kind of object, sleeps until a timer is
    due, dispatches, and returns from iv_main exactly when the last object has been unregistered (TEnd 0 0: not quit,
    object count 0) *)
